@@ -1225,16 +1225,20 @@ def simplifiers(op: dict):
 def required_probes(prop, tier):
     common = ['read_from_file', 'close', 'fsck']
     return common + {
-        'C03': ['create_associated', 'open_r', 'save', 'new_species_refused'],
+        'C03': ['create_associated', 'open_r', 'save', 'new_species_refused', 'create_associated_recomputed',
+                'open_override_recomputed', 'late_fieldset_registered'],
         'C07': ['read_from_file_in_write_session', 'old_index_read_after_add_in_append', 'get_at_len',
-                'inmem_overflow_refused', 'iterate', 'open_a'],
-        'C08': ['lookup_present', 'lookup_absent', 'lookup_while_stale', 'lookup_merged', 'open_a'],
+                'inmem_overflow_refused', 'iterate', 'open_a', 'add_zero_points', 'reject_file_exists'],
+        'C08': ['lookup_present', 'lookup_absent', 'lookup_while_stale', 'lookup_merged', 'open_a',
+                'close_again', 'create_associated_on_merged'],
         'C09': ['merge_base', 'merge_assoc', 'merge_pattern', 'merge_seam_read', 'open_merged',
-                'open_merged_with_assoc', 'lookup_merged', 'append_merged_refused'],
+                'open_merged_with_assoc', 'lookup_merged', 'append_merged_refused', 'merged_path_reused',
+                'open_merged_override_recomputed', 'merge_through_links', 'close_again'],
         # low-rate kinds are required as a family (prefix*), so that an unlucky seed cannot turn
         # a healthy batch into a harness error
         'C10': ['reject_required_none', 'reject_extra_fieldset', 'reject_missing_fieldset', 'reject_id_*',
-                'reject_noid_*', 'merge_sweeps', 'mfault_error', 'mfault_crash', 'mrefuse_*'],
+                'reject_noid_*', 'merge_sweeps', 'mfault_error', 'mfault_crash', 'mrefuse_*',
+                'reject_required_none_assoc_field_append', 'reject_oversize'],
     }[prop]
 
 
@@ -1266,7 +1270,10 @@ def evidence_info(prop):
                           'wall clock (store.datetime shim)', 'garbage-collection timing (automatic GC off; either a '
                           'collection after every operation, or - fault kind gc_inside_operation - none between '
                           'operations and the collector armed to fire after a seeded number of allocations inside '
-                          'seeded operations)'] + (
+                          'seeded operations)',
+                          'lifetime of caller-held objects (closed stores closed again, a trajectory object added to a '
+                          'second store after getting more species), late registration of a field set, removal of a '
+                          'merged store and reuse of its path, merge inputs handed over as symbolic links'] + (
                 ['os.mkdir/rename/... , open and netCDF4.Dataset create/close (pass-through + injected error / crash; '
                  'buffered metadata file with torn / lost / full outcomes; index file truncated / removed / intact after '
                  'a crash)'] if prop == 'C10' else []),
@@ -1274,6 +1281,8 @@ def evidence_info(prop):
         'fault_kinds': (['error', 'crash', 'crash_torn', 'crash_lost', 'crash_truncated', 'crash_removed']
                         if prop == 'C10' else []) + ['gc_inside_operation'],
         'assumptions': ['one session per file at a time, all driven from one thread',
-                        'NaN, zero-length trajectories, empty species sets and caches smaller than one trajectory are not generated',
+                        'NaN and caches smaller than one trajectory are not generated; zero-point trajectories only in '
+                        'in-memory stores (reading one back from a file is unsupported by the store)',
+                        'a store is always appended to with its complete set of associated files',
                         'HDF5 internals are not faulted; process death without close() is not simulated'],
     }
